@@ -339,7 +339,7 @@ func (c *RootConfig) Initialize(ctx context.Context) error {
 		}
 		parentPkgConfig := c.Packages[recursivePackageName]
 		for _, subpkg := range subpkgs {
-			excludeSubpkg, err := c.ShouldExcludeSubpkg(subpkg)
+			excludeSubpkg, err := parentPkgConfig.Config.ShouldExcludeSubpkg(subpkg)
 			if err != nil {
 				return err
 			}
